@@ -203,7 +203,8 @@ fn history_case(seed: u64, idx: usize, thorough: bool, out: &mut Out) {
     let scratch = Scratch::new("c12h");
     let data = scratch.sub("data");
     let backup_dir = scratch.sub("backups");
-    let pitr = thorough && idx % 8 == 0;
+    // point-in-time cases sleep 1.1 s between backups: spread them over all shards and bound their number
+    let pitr = thorough && (idx / 16) % 8 == 0 && idx < 16 * 8 * 24;
     let Some(b) = build(seed, idx, thorough, pitr, &data, &backup_dir, out, 0xC12) else { return };
     let desc = json!({"check":"C12","leg":"histories","seed":seed,"case":idx,"thorough":thorough,"cfg":b.cfg.to_json(),"history":b.history});
     let mut kinds = BTreeSet::new();
